@@ -18,7 +18,7 @@ import multiprocessing as mp
 
 from . import world as W
 from .core import Run, Violation, Foreign, HarnessError, HANDLERS  # noqa: F401
-from . import ops_struct, ops_meta, ops_data, ops_tree, ops_refuse, ops_fault, ops_frame, ops_copy  # noqa: F401  (registers ops)
+from . import ops_struct, ops_meta, ops_data, ops_tree, ops_refuse, ops_fault, ops_frame, ops_copy, ops_upgrade  # noqa: F401  (registers ops)
 
 VERIF = os.path.dirname(os.path.dirname(os.path.abspath(__file__)))
 OUT = os.path.join(VERIF, "out")
@@ -49,7 +49,7 @@ def _finish_result(run, out):
     ab = tuple((t[1], t[2]) for t in run.trace if isinstance(t[0], int))
     out["abstract"] = hashlib.sha256(repr(ab).encode()).hexdigest()[:16]
     n_fault = sum(1 for k, oc in ab if k in run.profile.FAULT_OPS or oc == "refused")
-    n_state = sum(1 for k, oc in ab if oc == "ok" and k.startswith(STATE_CHANGING))
+    n_state = sum(1 for k, oc in ab if oc in ("ok", "experiment") and k.startswith(STATE_CHANGING))
     out["nontrivial"] = bool(n_fault >= 1 and n_state >= 3)
     return out
 
